@@ -246,6 +246,7 @@ def r5_cli(ctx):
             s = repr((tuple(cond_v), tuple(conv), tuple(its), sp.end))
             import re
             s = re.sub(r'@(iter)?\d+', '@', s)
+            s = re.sub(r'__\d+', '', s)         # fresh names of inlined helpers
             for a, b in CORR:
                 s = s.replace(a, b)
             out.append(s)
@@ -257,13 +258,58 @@ def r5_cli(ctx):
               f'the handlers differ: kern2ekern-only facts {[x for x in fk if x not in fe][:1]}; ekern2kern-only facts '
               f'{[x for x in fe if x not in fk][:1]}')
     # absolute facts of one handler (the other follows by the mirror rule)
-    joined = ' '.join(fk)
-    ctx.check("CONV(str(Path(args.input_path)), str((Path(args.output_path) if args.output_path else None) or Path(args.input_path).with_suffix(SUF)))" in joined,
-              'R5', hk.loc, hk.qualname, 'cli-file-mode',
+    IN = 'Path(args.input_path)'
+    file_ok, dir_ok, per_file_ok = [], [], []
+    for sp in symex.func_sym_paths(hk):
+        tests = {src(n): t for n, t in sp.conds}
+        is_file = tests.get(f'{IN}.is_file()')
+        if is_file is None:
+            is_dir = tests.get(f'{IN}.is_dir()')
+            is_file = (not is_dir) if is_dir is not None else None
+        convs = [e.expr for e in sp.events if e.kind == 'expr' and isinstance(e.expr, ast.Call) and F.is_name(e.expr.func, 'kern_to_ekern')]
+        its = [e.expr for e in sp.events if e.kind in ('iter', 'skip')]
+        if is_file is True:
+            good = len(convs) == 1 and len(convs[0].args) == 2 and src(convs[0].args[0]) == f'str({IN})' and not its
+            if good:
+                out = convs[0].args[1]
+                out = out.args[0] if isinstance(out, ast.Call) and F.is_name(out.func, 'str') and len(out.args) == 1 else None
+                given = tests.get('args.output_path')
+                if isinstance(out, ast.BoolOp) and isinstance(out.op, ast.Or) and len(out.values) == 2:
+                    first, second = out.values
+                    if isinstance(first, ast.Constant) and first.value is None:
+                        out = second
+                    elif given is True and src(first) == 'Path(args.output_path)':
+                        out = first
+                    elif isinstance(first, ast.IfExp):
+                        out = None if src(out) != f"(Path(args.output_path) if args.output_path else None) or {IN}.with_suffix('.ekrn')" else \
+                            (first.body if given else second)
+                if out is None:
+                    good = False
+                elif given is True:
+                    good = src(out) == 'Path(args.output_path)'
+                elif given is False:
+                    good = src(out) == f"{IN}.with_suffix('.ekrn')"
+                else:
+                    good = src(out) in (f"(Path(args.output_path) if args.output_path else None) or {IN}.with_suffix('.ekrn')",)
+            file_ok.append(good)
+        elif is_file is False:
+            ff_calls = [i for i in its if isinstance(i, ast.Call) and F.is_name(i.func, 'find_files')]
+            dir_ok.append(len(ff_calls) == 1 and F.same(ctx, hk, ff_calls[0], f"find_files({IN}, ['*.krn', '*.kern'], recursive=args.recursive)"))
+            entered = [e for e in sp.events if e.kind == 'iter']
+            if entered and not any(e.kind == 'except' for e in sp.events):
+                import re
+                lv = None
+                good = len(convs) == 1 and len(convs[0].args) == 2
+                if good:
+                    a0, a1 = src(convs[0].args[0]), src(convs[0].args[1])
+                    m = re.fullmatch(r'str\((\w+@\d+)\)', a0)
+                    good = m is not None and a1 == f"str({m.group(1)}.with_suffix('.ekrn'))"
+                per_file_ok.append(good)
+    ctx.check(bool(file_ok) and all(file_ok), 'R5', hk.loc, hk.qualname, 'cli-file-mode',
               'file mode: converter(str(input), str(output_path or input.with_suffix(SUF))) exactly once')
-    ctx.check("find_files(Path(args.input_path), PATS, recursive=args.recursive)" in joined, 'R5', hk.loc, hk.qualname, 'cli-directory-mode',
+    ctx.check(bool(dir_ok) and all(dir_ok), 'R5', hk.loc, hk.qualname, 'cli-directory-mode',
               'directory mode: files = find_files(input, patterns, recursive=args.recursive)')
-    ctx.check("CONV(str(file@)" in joined and ".with_suffix(SUF)))" in joined, 'R5', hk.loc, hk.qualname, 'cli-per-file',
+    ctx.check(bool(per_file_ok) and all(per_file_ok), 'R5', hk.loc, hk.qualname, 'cli-per-file',
               'directory mode: converter(str(file), str(file.with_suffix(SUF))) for each file found')
     for f, conv, suf, pats in ((hk, 'kern_to_ekern', '.ekrn', ['*.krn', '*.kern']), (he, 'ekern_to_krn', '.krn', ['*.ekrn', '*.ekern'])):
         names = {n.func.id for n in walk_local(f.node) if isinstance(n, ast.Call) and isinstance(n.func, ast.Name)
